@@ -1,6 +1,7 @@
-"""Generic sweeps every property runs over its anchor files: R31 (no possibly-undefined local) and R22 (no stutter
-path in a `while` loop).  Both have expected count zero on a healthy tree; their positive examples are the self-test
-variants of C18/C19 (R31) and C02 (R22)."""
+"""Generic sweeps every property runs over its anchor files: R31 (no possibly-undefined local), R22 (no stutter
+path in a `while` loop) and R33 (no state kept from one call to the next: every property is quantified over all
+inputs *and histories*, so a result must be a function of the arguments).  All have expected count zero on a healthy
+tree; their positive examples are the self-test variants of C18/C19 (R31), C02 (R22) and C10/C12 (R33)."""
 
 from __future__ import annotations
 
@@ -34,7 +35,76 @@ def anchor_modules(ctx: Ctx) -> list:
     return sorted(mods, key=lambda m: m.rel)
 
 
+# module-level state that is read across calls on purpose (one line of reason each)
+R33_ALLOWED = {
+    ("solvor/rust/__init__.py", "_rust_available"): "one-time detection of the compiled extension; does not depend on any solver argument",
+    ("solvor/rust/__init__.py", "_adapters"): "adapter registry filled by decorators while the package is imported; no solver call writes it",
+    ("solvor/rust/__init__.py", "_warned"): "warn-once flag for the fallback message; does not influence results",
+}
+MUTATORS = ("append", "add", "update", "pop", "popitem", "remove", "discard", "clear", "extend", "insert", "setdefault", "appendleft", "popleft", "sort", "reverse")
+CACHE_DECORATORS = ("lru_cache", "cache", "cached_property", "functools.lru_cache", "functools.cache")
+
+
+def cross_call_state(m) -> list[tuple]:
+    """R33: constructs through which one call of a function of module `m` can influence a later call:
+    `global` rebinding, mutation of a module-level object, a caching decorator, a mutated mutable default."""
+    out = []
+    top = set()
+    for n in m.tree.body:
+        if isinstance(n, (ast.Assign, ast.AnnAssign)):
+            for t in n.targets if isinstance(n, ast.Assign) else [n.target]:
+                for e in ast.walk(t):
+                    if isinstance(e, ast.Name):
+                        top.add(e.id)
+    for q in sorted(m.funcs):
+        f = m.funcs[q]
+        for d in f.node.decorator_list:
+            dn = ast.unparse(d.func if isinstance(d, ast.Call) else d)
+            if dn in CACHE_DECORATORS:
+                out.append((f, d, dn, f"`@{dn}` keeps the returned object alive across calls: a caller that writes into it changes what the next call receives"))
+        bound = set(f.params) | {x.id for x in ast.walk(f.node) if isinstance(x, ast.Name) and isinstance(x.ctx, ast.Store)}
+        g = f.parent
+        while g is not None:
+            bound |= set(g.params) | {x.id for x in ast.walk(g.node) if isinstance(x, ast.Name) and isinstance(x.ctx, ast.Store)}
+            g = g.parent
+        defaults = {}
+        a = f.node.args
+        pos = a.posonlyargs + a.args
+        for arg, dv in list(zip(pos[len(pos) - len(a.defaults):], a.defaults)) + [(x, y) for x, y in zip(a.kwonlyargs, a.kw_defaults) if y is not None]:
+            if isinstance(dv, (ast.List, ast.Dict, ast.Set)) or (isinstance(dv, ast.Call) and ast.unparse(dv.func) in ("list", "dict", "set", "defaultdict")):
+                defaults[arg.arg] = dv
+        declared = set()
+        for n in f.own_nodes():
+            if isinstance(n, ast.Global):
+                for nm in n.names:
+                    declared.add(nm)
+                    out.append((f, n, nm, f"`global {nm}`: the function rebinds module state that a later call reads"))
+
+        def base(e):
+            while isinstance(e, (ast.Subscript, ast.Attribute)):
+                e = e.value
+            return e.id if isinstance(e, ast.Name) else None
+
+        for n in f.own_nodes():
+            tgt = None
+            if isinstance(n, (ast.Assign, ast.AugAssign, ast.AnnAssign)):
+                for t in n.targets if isinstance(n, ast.Assign) else [n.target]:
+                    for e in t.elts if isinstance(t, ast.Tuple) else [t]:
+                        if isinstance(e, (ast.Subscript, ast.Attribute)):
+                            tgt = base(e)
+            elif isinstance(n, ast.Call) and isinstance(n.func, ast.Attribute) and n.func.attr in MUTATORS:
+                tgt = base(n.func.value)
+            if tgt is None:
+                continue
+            if tgt in top and tgt not in bound:
+                out.append((f, n, tgt, f"`{ast.unparse(n)[:50]}` writes into the module-level object `{tgt}`"))
+            elif tgt in defaults and not any(isinstance(x, ast.Name) and x.id == tgt and isinstance(x.ctx, ast.Store) for x in ast.walk(f.node)):
+                out.append((f, n, tgt, f"`{ast.unparse(n)[:50]}` writes into the mutable default of `{tgt}`, which is shared by all calls"))
+    return out
+
+
 def generic_sweeps(ctx: Ctx, stutter: bool = True, skip_stutter_modules: tuple = ()):
+    ctx.sweeps_done = True
     mods = anchor_modules(ctx)
     ctx.require(bool(mods), "no anchor module of this property found in the repository")
     n_funcs = n_loops = 0
@@ -66,4 +136,13 @@ def generic_sweeps(ctx: Ctx, stutter: bool = True, skip_stutter_modules: tuple =
     ctx.ob(g + "1", "R31 DEFINED-ON-ALL-PATHS", None, f"every local read in the {n_funcs} functions of the anchor files is bound on all paths", not [o for o in ctx.obs if o.oid == g + "1" and not o.ok and o.severity == "violation"], "", rel=mods[0].rel, fname="<anchor files>")
     if stutter:
         ctx.ob(g + "2", "R22 STUTTER-FREE", None, f"no stutter path in the {n_loops} `while` loops of the anchor files", not [o for o in ctx.obs if o.oid == g + "2" and not o.ok], "", rel=mods[0].rel, fname="<anchor files>")
+    n_state = 0
+    for m in mods:
+        for f, n, nm, why in cross_call_state(m):
+            if (m.rel, nm) in R33_ALLOWED:
+                ctx.ob(g + "3", "R33 NO-CROSS-CALL-STATE", f, f"module state `{nm}`", False, R33_ALLOWED[(m.rel, nm)], node=n, severity="note")
+                continue
+            n_state += 1
+            ctx.ob(g + "3", "R33 NO-CROSS-CALL-STATE", f, f"no state outlives the call (`{nm}`)", False, why + " - the result then depends on the history of earlier calls, not only on the arguments", node=n)
+    ctx.ob(g + "3", "R33 NO-CROSS-CALL-STATE", None, f"no function of the anchor files keeps state from one call to the next (global rebinding, module-level mutation, caching decorator, mutated default)", n_state == 0, "", rel=mods[0].rel, fname="<anchor files>")
     ctx.count("functions swept (R31/R22)", n_funcs)
